@@ -83,6 +83,6 @@ EqualsIteration ==
 TlsParserAlias ==
   LET c == Cases[i] IN c.fn = "tls_parser" => res = ParsePlaintext(c.bytes, 0, Len(c.bytes))
 
-Pin == IF res.k = "ok" THEN "full" ELSE IF Cases[i].fn = "tls_parser" THEN "full" ELSE "novalue"
+Pin == IF res.k = "ok" THEN "full" ELSE IF Cases[i].fn = "tls_parser" THEN "full" ELSE IF res.k \in {"err", "fail"} THEN "reject" ELSE "novalue"
 EmitCase == LET c == Cases[i] IN EmitLine(CaseLine(i, c.fn, NoArgs, <<Lit(c.bytes)>>, res, Pin, [n |-> Len(c.bytes)]))
 =============================================================================
